@@ -110,7 +110,7 @@ def run_case(case):
     elif kind == "ctx":
         from .C07 import function_before_declaration_scripts
         # (every second script of that family declares the device BEFORE the helper that uses it: devices used only from helpers)
-        pool = corpus.context_scripts(rng_for(PROP, sd, "ctx"), 16) + corpus.collision_scripts(rng_for(PROP, sd, "col"), 36) + \
+        pool = corpus.context_scripts(rng_for(PROP, sd, "ctx"), 16) + corpus.collision_scripts(rng_for(PROP, sd, "col"), 36, conflicting_returns=False) + \
             function_before_declaration_scripts()[1::2] + corpus.helper_only_scripts() + corpus.main_loop_break_scripts()
         script = pool[idx % len(pool)]
     elif kind == "lists":
